@@ -4,7 +4,7 @@
 WT=${WT:-/tmp/evalwt}
 [ -d $WT ] || git -C /repo worktree add -q --detach $WT HEAD
 cd /verif
-IDS="$@"; [ -z "$IDS" ] && IDS=$(ls seeded)
+IDS="$@"; [ -z "$IDS" ] && IDS=$(cd seeded && ls -d */ | tr -d /)
 for id in $IDS; do
   git -C $WT checkout -q -- . ; git -C $WT clean -fdq
   git -C $WT apply /verif/seeded/$id/patch.diff || { echo "$id: patch does not apply to $(git -C $WT rev-parse --short HEAD)"; continue; }
